@@ -23,32 +23,86 @@ LEVEL = "model_checking"
 INDENTS = ["", " ", "   ", "        ", "\t", " \t"]
 
 
-def crender(node, style, ind, unit):
-    """canonical rendering; differs from cgen.render in one documented point: a brace block directly under a case label sits
-    at the label's column (indent_case_brace = 0), its statements one level deeper"""
-    if node[0] == "switch":
-        pad = unit * ind
-        out = [pad + "switch (a) {"] if style != "allman" else [pad + "switch (a)", pad + "{"]
+def crender(node, style, col, ic, N=0):
+    """canonical rendering in explicit columns.  ic = indent_columns, N = indent_brace (the braces of a statement - not
+    of a function or of a bare block - are shifted N columns, their content sits indent_columns right of the brace).
+    Documented points encoded here: case labels at the column of the switch's brace (indent_switch_case = 0); a brace block
+    directly under a case label at the label's column (indent_case_brace = 0); an unbraced body one level deeper."""
+    pad = lambda c: " " * c
+    k = node[0]
+
+    def head_body(head, body, c, lead=None):
+        """-> (lines, column of the closing brace or None).  lead = text to put in front of head ('} ')"""
+        first = (lead or "") + head
+        fc = c if lead is None else c + N          # a line starting with '}' starts at the brace column
+        if body[0] == "bare":
+            return [pad(fc) + first] + crender(body[1], style, c + ic, ic, N), None
+        bc = c + N
+        if style != "allman":
+            out = [pad(fc) + first + " {"]
+        else:
+            out = [pad(fc) + first, pad(bc) + "{"]
+        for x in body[1]:
+            out += crender(x, style, bc + ic, ic, N)
+        return out + [pad(bc) + "}"], bc
+
+    if k in ("expr", "decl"):
+        return [pad(col) + node[1]]
+    if k == "empty":
+        return [pad(col) + ";"]
+    if k == "ret":
+        return [pad(col) + "return;"]
+    if k == "break":
+        return [pad(col) + "break;"]
+    if k in cgen.HEAD:
+        return head_body(cgen.HEAD[k], node[1], col)[0]
+    if k in ("ifelse", "chain"):
+        if k == "ifelse":
+            arms, heads = [node[1], node[2]], ["if (a)", "else"]
+        else:
+            arms = [b for b in node[1] if b != "else"]
+            heads = ["if (a)"] + ["else if (b)"] * (len(arms) - 1)
+            if node[1][-1] == "else":
+                heads[-1] = "else"
+        out, prev_bc = [], None
+        for h, b in zip(heads, arms):
+            if out and prev_bc is not None and style != "allman":
+                closing = out.pop()
+                part, prev_bc2 = head_body(h, b, col, lead="} ")
+                out += part
+                prev_bc = prev_bc2
+            else:
+                part, prev_bc = head_body(h, b, col)
+                out += part
+        return out
+    if k == "do":
+        lines, bc = head_body("do", node[1], col)
+        if bc is not None and style != "allman":
+            lines[-1] += " while (a);"
+        else:
+            lines.append(pad(col) + "while (a);")
+        return lines
+    if k == "block":
+        out = [pad(col) + "{"]
+        for x in node[1]:
+            out += crender(x, style, col + ic, ic, N)
+        return out + [pad(col) + "}"]
+    if k == "switch":
+        bc = col + N
+        out = [pad(col) + "switch (a) {"] if style != "allman" else [pad(col) + "switch (a)", pad(bc) + "{"]
         for lab, body in node[1]:
-            out.append(pad + lab)
+            out.append(pad(bc) + lab)
             for x in body:
                 if x[0] == "block":
-                    out += crender(x, style, ind, unit)
+                    out += crender(x, style, bc, ic, N)
                 else:
-                    out += crender(x, style, ind + 1, unit)
-        return out + [pad + "}"]
-    if node[0] == "block":
-        pad = unit * ind
-        out = [pad + "{"]
-        for x in node[1]:
-            out += crender(x, style, ind + 1, unit)
-        return out + [pad + "}"]
-    return cgen.render(node, style, ind, unit)
+                    out += crender(x, style, bc + ic, ic, N)
+        return out + [pad(bc) + "}"]
+    raise ValueError(k)
 
 
-def canon(node, style, ic, java=False):
-    base = 2 if java else 1
-    return crender(node, style, base, " " * ic)
+def canon(node, style, ic, java=False, N=0):
+    return crender(node, style, (2 if java else 1) * ic, ic, N)
 
 
 def wrap(fn_bodies, java):
@@ -132,7 +186,7 @@ def job(j):
         got = split_funcs("\n".join(expand(l, ts) for l in r.out.decode("latin-1").split("\n")))
         for name, node, style, var, lines, cm in pack:
             res["funcs"] += 1
-            body = canon(node, style, ic, java)
+            body = canon(node, style, ic, java, int(st.get("indent_brace", "0")))
             if cm is not None:
                 # the comment sits in front of body line cm, at that line's column
                 tgt = body[cm]
@@ -219,6 +273,11 @@ def check(ctx):
     else:
         ics, iwts, tss = tuple(str(i) for i in range(1, 17)), ("0", "1", "2"), ("2", "4", "8")
     prod = [{"indent_columns": a, "indent_with_tabs": b, "output_tab_size": c} for a in ics for b in iwts for c in tss]
+    # GNU-style brace offset (closed form: statement braces shifted by indent_brace, content indent_columns right of the brace)
+    prod += [{"indent_columns": a, "indent_with_tabs": "0", "output_tab_size": "8", "indent_brace": n}
+             for a in (("4",) if quick else ("2", "4", "8")) for n in (("2",) if quick else ("1", "2", "5"))]
+    while len(prod) % 12 and quick:
+        prod.append(dict(prod[-1], output_tab_size="4"))
     jobs = []
     nfun = 0
     for lang in ("C", "CPP", "JAVA"):
@@ -246,7 +305,7 @@ def check(ctx):
                 jobs.append((lang, pack, prod[c0:c0 + 12], True))
     # option variants: differential clause
     djobs = []
-    opt_variants = [{"indent_braces": "true"}, {"indent_brace": "2"}, {"indent_switch_case": "4"}, {"indent_case_brace": "4"}, {"indent_braces_no_func": "true", "indent_braces": "true"},
+    opt_variants = [{"indent_braces": "true"}, {"indent_switch_case": "4"}, {"indent_case_brace": "4"}, {"indent_braces_no_func": "true", "indent_braces": "true"},
                     {"indent_switch_body": "2"}, {"indent_else_if": "true"}, {"indent_label": "2"}, {"indent_min_vbrace_open": "4"}]
     for si, node in enumerate(shapes):
         if quick and si % 3:
